@@ -4,4 +4,5 @@ import XyzModel.Batch
 import XyzModel.Nest
 import XyzModel.Core
 import XyzModel.Value
+import XyzModel.Crop
 import XyzModel.Drv
